@@ -207,6 +207,17 @@ impl<F> FuturesUnordered<F> {
     }
 }
 
+#[cfg(futures_buffered_verif)]
+impl<F> FuturesUnordered<F> {
+    /// Verification only: `(capacity, len, waker block address)` of every internal group.
+    pub fn verif_groups(&self) -> Vec<(usize, usize, usize)> {
+        self.groups
+            .iter()
+            .map(|g| (g.capacity(), g.len(), g.verif_block()))
+            .collect()
+    }
+}
+
 impl<F: Future> Stream for FuturesUnordered<F> {
     type Item = F::Output;
 
